@@ -101,7 +101,7 @@ class GatedMatcher(object):
         self._w = world
 
     def match(self, text):
-        src = text.split()[-1] if text.startswith("do ") else text
+        src = text.split()[1] if text.startswith("do ") else text
         if self._w.opts.get("undef", True) and text.startswith("do "):
             if self._w.undef(src):
                 self._w.events.append(("undefined-lookup", src))
@@ -126,6 +126,8 @@ class World(object):
         self.fault_fired = []   # [(k, hook name, arg)]
         self.cleanup_log = []
         self.timeline = []      # ("hook", name, arg) | ("call", sid, src) | ("cleanup", key)
+        self._shared_cleanup = None
+        self.shared_registrations = []
         self.phase = 1
         self.attempt = {}
         self._out = {}
@@ -309,6 +311,7 @@ class World(object):
     # -- step function --------------------------------------------------------------------------
     def _stepfn(self, context, src):
         from behave.api.pending_step import StepNotImplementedError
+        src = src.split()[0]        # a parametrised (background) step carries the row value after its source id
         sc = getattr(context, "scenario", None)
         e = self.elem_of(sc)
         sid = e.eid if e is not None else "?"
@@ -319,6 +322,19 @@ class World(object):
             print("OUT<%s:%s>" % (sid, src))
             sys.stderr.write("ERR<%s:%s>\n" % (sid, src))
             logging.getLogger("harness").warning("LOG<%s:%s>", sid, src)
+        if src.endswith(".sub"):
+            # nested sub-step (execute_steps): passes, or fails iff its own outcome is assert-fail
+            if self.out(sid, src) == OUT_ASSERT:
+                raise AssertionError("boom %s" % src)
+            return
+        if src in self.opts.get("nested_steps", ()):
+            context.execute_steps(u"Given do %s.sub\nThen do %s.sub2.sub" % (src, src))
+            self.calls.append((sid, src + ".post"))
+            if self.opts.get("prints"):
+                import logging
+                print("OUT<%s:%s.post>" % (sid, src))
+                sys.stderr.write("ERR<%s:%s.post>\n" % (sid, src))
+                logging.getLogger("harness").warning("LOG<%s:%s.post>", sid, src)
         o = self.out(sid, src)
         if o == OUT_ASSERT:
             self.events.append(("assert", sid, src))
@@ -351,6 +367,16 @@ class World(object):
                     self.events.append(("cleanup-raised", key))
                     raise RuntimeError("cleanup %s" % key)
             cleanup.__name__ = "cleanup_" + key.replace(".", "_").replace(":", "_")
+            if self.opts.get("cleanup_shared"):
+                # the SAME callable is registered by every step that asks for it (documented: duplicates are avoided)
+                if self._shared_cleanup is None:
+                    def shared():
+                        self.cleanup_log.append("shared")
+                        self.timeline.append(("cleanup", "shared"))
+                    self._shared_cleanup = shared
+                self.shared_registrations.append((sid, src))
+                context.add_cleanup(self._shared_cleanup, layer=layer) if layer else context.add_cleanup(self._shared_cleanup)
+                return
             if layer:
                 context.add_cleanup(cleanup, layer=layer)
             else:
@@ -367,7 +393,7 @@ class World(object):
             return e.eid
         name = getattr(obj, "name", None)
         if isinstance(obj, self.bmodel.Step):
-            return "step:" + name.split()[-1]
+            return "step:" + name.split()[1]
         return repr(obj)
 
     def _make_hooks(self):
